@@ -806,19 +806,139 @@ theorem filterBlock_sim {addrs : List Addr} {ready : List Wid} {c : Ctx} {g s g'
       · rw [← e]; exact hk
       · rw [hk] at a5; cases a5; rw [a6, a3] at hsh; cases hsh
 
-/-- `filterBlock` writes tx records / the block record / debits only under the block's own keys, and never
-    touches a credit of the removed wallet: the ghost half of `filterBlock_sim` alone (take `s := g`) -/
-theorem filterBlock_frame {addrs : List Addr} {ready : List Wid} {c : Ctx} {g g' : Store} {b : Block} {conf : List TxId}
-    (hng : KeysNodup g.credits) (hF : Fresh ⟨b.height, b.id⟩ g) (hC : CoinsOK addrs ready g)
-    (hfind : ∀ id, existCreditFromTx g id = true → (c.node.fetchTx id).isSome = true)
-    (hrel : ∀ a w' ch, AMap.get c.own a = some (w', ch) → ready.contains w' = true → addrs.contains a = false)
-    (hg : filterBlock c g ready b = .ok (g', conf)) :
-    (∀ k, k.2 ≠ ⟨b.height, b.id⟩ → AMap.get g'.txrecs k = AMap.get g.txrecs k) ∧
-    (∀ h, h ≠ b.height → AMap.get g'.blocks h = AMap.get g.blocks h) ∧
-    (∀ k, k.blk ≠ ⟨b.height, b.id⟩ → AMap.get g'.debits k = AMap.get g.debits k) := by
-  obtain ⟨_, _, hI⟩ := filterBlock_simInv (sub_refl addrs g) hng hng hF hF.blocks hC hfind
-    (fun _ _ _ _ _ _ h1 h2 => by rw [h1] at h2; cases h2) hrel hg
-  exact ⟨hI.tx.gframe, hI.blk.gframe, hI.deb.gframe⟩
+-- ------------------------------------------------------------------ the frame of filterBlock, any store
+
+/-- tx records / block records / debits outside block `bm` are those of `s0` -/
+structure FrameInv (bm : BlockMeta) (s0 st : Store) : Prop where
+  tx : ∀ k : TxId × BlockMeta, k.2 ≠ bm → AMap.get st.txrecs k = AMap.get s0.txrecs k
+  blk : ∀ h : Nat, h ≠ bm.height → AMap.get st.blocks h = AMap.get s0.blocks h
+  deb : ∀ k : CredKey, k.blk ≠ bm → AMap.get st.debits k = AMap.get s0.debits k
+
+theorem FrameInv.minedEq {bm : BlockMeta} {s0 st st' : Store} (h : FrameInv bm s0 st) (hm : MinedEq st st') :
+    FrameInv bm s0 st' := by
+  constructor
+  · rw [hm.txrecs]; exact h.tx
+  · rw [hm.blocks]; exact h.blk
+  · rw [hm.debits]; exact h.deb
+
+theorem frame_recordMinedTx {bm : BlockMeta} {s0 st : Store} (h : FrameInv bm s0 st) (tr : TxRec) :
+    FrameInv bm s0 (recordMinedTx st tr bm) := by
+  refine ⟨?_, ?_, h.deb⟩
+  · intro k hk
+    show AMap.get (AMap.put st.txrecs (tr.tx.id, bm) tr.loc) k = _
+    have e : ¬ (tr.tx.id, bm) = k := fun e => hk (by rw [← e])
+    rw [AMap.get_put, if_neg e]; exact h.tx k hk
+  · intro k hk
+    unfold recordMinedTx
+    dsimp only
+    have e : ¬ bm.height = k := fun e => hk e.symm
+    split
+    · rw [AMap.get_put, if_neg e]; exact h.blk k hk
+    · rw [AMap.get_put, if_neg e]; exact h.blk k hk
+
+theorem frame_spendOne {bm : BlockMeta} {s0 : Store} {tr : TxRec} {sb sb' : Store × Bals} {rel : Rel}
+    (h : FrameInv bm s0 sb.1) (hf : spendOne tr bm sb rel = .ok sb') : FrameInv bm s0 sb'.1 := by
+  unfold spendOne at hf
+  repeat' split at hf
+  all_goals cases hf
+  refine ⟨h.tx, h.blk, ?_⟩
+  intro k hk
+  show AMap.get (AMap.put sb.1.debits ⟨tr.tx.id, bm, rel.index⟩ _) k = _
+  have e : ¬ (⟨tr.tx.id, bm, rel.index⟩ : CredKey) = k := fun e => hk (by rw [← e])
+  rw [AMap.get_put, if_neg e]; exact h.deb k hk
+
+theorem frame_creditOne {bm : BlockMeta} {s0 : Store} {p : Params} {tr : TxRec} {sb sb' : Store × Bals} {rel : Rel}
+    (h : FrameInv bm s0 sb.1) (hf : creditOne p tr bm sb rel = .ok sb') : FrameInv bm s0 sb'.1 := by
+  unfold creditOne at hf
+  split at hf
+  · cases hf
+  · cases hf; exact ⟨h.tx, h.blk, h.deb⟩
+
+theorem frame_addRelevantMined {bm : BlockMeta} {s0 : Store} {p : Params} {own : Own} {tr : TxRec}
+    {sb sb' : Store × Bals} (h : FrameInv bm s0 sb.1) (hf : addRelevantMined p own sb.1 sb.2 tr bm = .ok sb') :
+    FrameInv bm s0 sb'.1 := by
+  unfold addRelevantMined at hf
+  obtain ⟨r, h1, h2⟩ := M_bind_ok hf
+  have hr : FrameInv bm s0 r.1 := by
+    unfold insertMinedTx at h1
+    split at h1
+    · cases h1; exact h
+    · obtain ⟨sb1, h3, h4⟩ := M_bind_ok h1
+      cases h4
+      have := foldlM_preserves_store (·.1) (FrameInv bm s0) _ _
+        (fun _ _ _ _ hb hf => frame_spendOne hb hf) (b := (recordMinedTx sb.1 tr bm, sb.2))
+        (frame_recordMinedTx h tr) h3
+      exact this.minedEq ((minedEq_unpendMined _ _).trans (minedEq_removeDoubleSpends own _ tr))
+  obtain ⟨s1, bals1, fl⟩ := r
+  dsimp only at h2 hr
+  unfold addCredits at h2
+  split at h2
+  · cases h2; exact hr
+  · obtain ⟨sb1, h3, h4⟩ := M_bind_ok h2
+    cases h4
+    have h5 := foldlM_preserves_store (·.1) (FrameInv bm s0) _ _
+      (fun _ _ _ _ hb hf => frame_creditOne hb hf) (b := (s1, bals1)) hr h3
+    have : ∀ (l : List Rel) (st : Store), FrameInv bm s0 st → FrameInv bm s0 (l.foldl (gameOne tr bm) st) := by
+      intro l
+      induction l with
+      | nil => intro st hst; exact hst
+      | cons a l ih => intro st hst; exact ih _ ⟨hst.tx, hst.blk, hst.deb⟩
+    exact this _ _ h5
+
+theorem putSyncedTo_frame {st st' : Store} {blk : BlockMeta} (h : putSyncedTo st blk = .ok st') :
+    st'.txrecs = st.txrecs ∧ st'.blocks = st.blocks ∧ st'.debits = st.debits := by
+  unfold putSyncedTo at h
+  split at h
+  · cases h
+  split at h
+  · cases h
+  cases h
+  exact ⟨rfl, rfl, rfl⟩
+
+/-- `filterBlock` writes tx records / the block record / debits only under the block's own keys (any store) -/
+theorem filterBlock_frame {c : Ctx} {st st' : Store} {ready : List Wid} {b : Block} {conf : List TxId}
+    (hg : filterBlock c st ready b = .ok (st', conf)) :
+    (∀ k, k.2 ≠ ⟨b.height, b.id⟩ → AMap.get st'.txrecs k = AMap.get st.txrecs k) ∧
+    (∀ h, h ≠ b.height → AMap.get st'.blocks h = AMap.get st.blocks h) ∧
+    (∀ k, k.blk ≠ ⟨b.height, b.id⟩ → AMap.get st'.debits k = AMap.get st.debits k) := by
+  have tail : ∀ (recs : List TxRec) (st' : Store) (conf : List TxId),
+      (applyRelevant c st ready ⟨b.height, b.id⟩ recs >>= fun s1 =>
+        putSyncedTo (purgeUnrelated c.own s1 (if ready.isEmpty = true then [] else unrelatedTxs b.txs recs))
+          ⟨b.height, b.id⟩ >>= fun s2 => (pure (s2, recs.map (·.tx.id)) : M (Store × List TxId))) = .ok (st', conf) →
+      FrameInv ⟨b.height, b.id⟩ st st' := by
+    intro recs st' conf hg
+    obtain ⟨s1, h1, hg⟩ := M_bind_ok hg
+    obtain ⟨s2, h2, hg⟩ := M_bind_ok hg
+    cases hg
+    have hI1 : FrameInv ⟨b.height, b.id⟩ st s1 := by
+      unfold applyRelevant at h1
+      split at h1
+      · cases h1; exact ⟨fun _ _ => rfl, fun _ _ => rfl, fun _ _ => rfl⟩
+      · obtain ⟨sb1, h3, h4⟩ := M_bind_ok h1
+        cases h4
+        have := foldlM_preserves_store (·.1) (FrameInv ⟨b.height, b.id⟩ st) _ _
+          (fun _ _ _ _ hb hf => frame_addRelevantMined hb hf)
+          (b := (st, st.balance.filter (fun e => ready.contains e.1)))
+          ⟨fun _ _ => rfl, fun _ _ => rfl, fun _ _ => rfl⟩ h3
+        exact ⟨this.tx, this.blk, this.deb⟩
+    have hI2 := hI1.minedEq (minedEq_purgeUnrelated c.own s1
+      (if ready.isEmpty = true then [] else unrelatedTxs b.txs recs))
+    obtain ⟨e1, e2, e3⟩ := putSyncedTo_frame h2
+    exact ⟨by rw [e1]; exact hI2.tx, by rw [e2]; exact hI2.blk, by rw [e3]; exact hI2.deb⟩
+  unfold filterBlock at hg
+  split at hg
+  · cases hg
+  dsimp only at hg
+  split at hg
+  · cases hg
+  by_cases hre : ready.isEmpty = true
+  · rw [if_pos hre] at hg
+    have := tail [] _ _ hg
+    exact ⟨this.tx, this.blk, this.deb⟩
+  · rw [if_neg hre] at hg
+    obtain ⟨recs, _, hg⟩ := M_bind_ok hg
+    have := tail recs _ _ hg
+    exact ⟨this.tx, this.blk, this.deb⟩
 
 -- ------------------------------------------------------------------ an unconfirmed transaction
 
